@@ -171,8 +171,22 @@ pub fn gen_config(rng: &mut Rng, o: &CfgOpts) -> Config {
         let mut clauses = vec![];
         let mut preds: Vec<u32> = vec![];
         let mut left = n_pat;
+        let generic = matches!(m, M::GenU8 | M::GenU16 | M::GmU8 | M::GmU16);
         while left > 0 {
-            if ordered {
+            if generic {
+                // generic instantiations are built through a reduced builder path: one segment
+                let pred = gen_pred(rng, m.domain(), &preds);
+                preds.push(pred);
+                let resp = if rng.chance(2, 3) { Resp::Returns } else { Resp::AnswersArc(Prog::default()) };
+                let (form, quant) = if ordered {
+                    (Form::NextCall, if rng.chance(1, 2) { Quant::Unq } else { Quant::N(gen_count(rng, false)) })
+                } else {
+                    (Form::EachCall, *rng.pick(&[Quant::Unq, Quant::Once, Quant::N(2), Quant::AtLeast(1)]))
+                };
+                let resp = if ordered { Resp::Returns } else { resp };
+                clauses.push(ClauseSpec { m: *m, form, patterns: vec![PatternSpec { pred, has_matcher: true, segs: vec![Seg { resp, quant }] }] });
+                left -= 1;
+            } else if ordered {
                 let pred = gen_pred(rng, m.domain(), &preds);
                 preds.push(pred);
                 clauses.push(ClauseSpec {
@@ -431,6 +445,8 @@ pub struct HistOpts {
     /// probability (percent) that a call is routed through a clone rather than the original
     pub via_clone_pct: u64,
     pub steer_bounds: bool,
+    /// methods called at random besides the mentioned ones
+    pub pool: Vec<M>,
 }
 
 impl Default for HistOpts {
@@ -444,6 +460,7 @@ impl Default for HistOpts {
             fine: false,
             via_clone_pct: 50,
             steer_bounds: true,
+            pool: PLAIN_REF.to_vec(),
         }
     }
 }
@@ -513,7 +530,7 @@ pub fn gen_history(rng: &mut Rng, cfg: &Config, o: &HistOpts) -> (Vec<Vec<Op>>, 
         let mut v = st.flat.methods.clone();
         v.extend(st.flat.methods.iter().copied());
         v.extend(st.flat.methods.iter().copied());
-        v.extend(PLAIN_REF.iter().copied());
+        v.extend(o.pool.iter().copied());
         if st.flat.methods.contains(&M::Gm) {
             v.push(M::Gm);
         }
